@@ -552,7 +552,8 @@ Definition into_route (cfg : config) (r : rule10) : route10 :=
 Definition header_capture (E : engine) (k : route_header_kind) (s : str) : list (str * str) :=
   match k with HMatchRegex m => ms_capture_run E m s | _ => [] end.
 
-(* Route::capture: path, then host, then every request header whose name EQUALS the rule header's name *)
+(* Route::capture: path, then host, then every request header whose name equals the rule header's name after
+   to_lowercase (ASCII names), as the header matcher compares them (exact comparison before the repair 71eaac6) *)
 Definition route_capture (E : engine) (rt : route10) (q : request10) : list (str * str) :=
   let parameters := sod_capture E (rt_path rt) (pq_path_and_query (q_pq q)) in
   let parameters :=
@@ -562,7 +563,7 @@ Definition route_capture (E : engine) (rt : route10) (q : request10) : list (str
     end in
   fold_left (fun acc header =>
     fold_left (fun acc request_header =>
-      if str_eqb (fst request_header) (fst header) then map_extend acc (header_capture E (snd header) (snd request_header))
+      if str_eqb (to_lowercase_ascii (fst request_header)) (to_lowercase_ascii (fst header)) then map_extend acc (header_capture E (snd header) (snd request_header))
       else acc) (q_headers q) acc) (rt_headers rt) parameters.
 
 (* Request::header_values / header_value: names compared after to_lowercase (ASCII names) *)
